@@ -273,7 +273,7 @@ pub fn check_case(_ctx: &Ctx, case: &Case, t: &mut Tally) {
             for (k, v1) in &a1 {
                 let v2 = a2.get(k);
                 let ok = match v2 {
-                    Some(v2) => v1.len() == v2.len() && v1.iter().zip(v2.iter()).all(|(x, y)| if dyadic { x == y } else { (x - y).abs() <= 1e-5 * x.abs().max(y.abs()) + 1e-4 }),
+                    Some(v2) => v1.len() == v2.len() && v1.iter().zip(v2.iter()).all(|(x, y)| if dyadic { x == y } else { (x - y).abs() <= (1e-5 + 1.5e-7 * n as f64) * x.abs().max(y.abs()) + 1e-4 }),
                     None => v1.iter().all(|x| x.abs() < 1e-4),
                 };
                 if !ok {
